@@ -303,7 +303,24 @@ void NTT_Goldilocks::reversePermutation(Goldilocks::Element *dst, Goldilocks::El
         }
         else
         {
-            assert(0); // Option not implemented yet
+            assert(offset_cols == 0 && ncols == ncols_all); // single block
+            // rows beyond size/extension are padding: zero them, then permute in place
+            u_int64_t nrows_in = size / extension;
+            Goldilocks::parSetZero(&dst[nrows_in * ncols], (size - nrows_in) * ncols, nThreads);
+#pragma omp parallel for schedule(static)
+            for (u_int64_t i = 0; i < size; i++)
+            {
+                u_int64_t r = BR(i, domainSize);
+                u_int64_t offset_r = r * ncols;
+                u_int64_t offset_i = i * ncols;
+                if (r < i)
+                {
+                    Goldilocks::Element tmp[ncols];
+                    std::memcpy(&tmp[0], &src[offset_r], ncols * sizeof(Goldilocks::Element));
+                    std::memcpy(&dst[offset_r], &src[offset_i], ncols * sizeof(Goldilocks::Element));
+                    std::memcpy(&dst[offset_i], &tmp[0], ncols * sizeof(Goldilocks::Element));
+                }
+            }
         }
     }
 }
